@@ -962,6 +962,10 @@ func R29() Rule {
 	return Rule{Name: "R29", Run: func(c *core.Ctx) {
 		P := c.P
 		allowedIface := map[string]string{"(*GcsEmu).finishUpload": "the verified upload path", "(*GcsEmu).finishCompose": "the compose path"}
+		if fc := P.Func(core.PkgGcsemu, "(*GcsEmu).finishCompose"); fc == nil || fc.Blocks == nil {
+			// the compose path inlined into its handler's critical section (R11 still demands the section)
+			allowedIface["(*GcsEmu).handleGcsCompose"] = "the compose path (finishCompose inlined)"
+		}
 		n := 0
 		for _, fn := range P.SrcFuncs(core.PkgGcsemu) {
 			for _, ci := range core.AllCalls(fn) {
